@@ -518,6 +518,27 @@ def through_traits(ctx, res):
     res.oblige(ok, "__setstate__:trait_set", mod.loc(fn),
                "the versioned restore path must assign the state with "
                "self.trait_set(**state)")
+    # ... with change notification on when called the way pickle calls it
+    # (`obj.__setstate__(state)`): observers that reach *through* a restored
+    # value (child.value, items) are hooked by these very change events
+    defaults = {}
+    pos = fn.args.args
+    for a, d in zip(pos[len(pos) - len(fn.args.defaults):], fn.args.defaults):
+        defaults[a.arg] = d
+    for c in [n for n in ast.walk(fn) if is_self_call(n, "trait_set")]:
+        for k in c.keywords:
+            if k.arg != "trait_change_notify":
+                continue
+            v = k.value
+            if isinstance(v, ast.Name) and v.id in defaults:
+                v = defaults[v.id]
+            res.oblige(isinstance(v, ast.Constant) and v.value is True,
+                       "__setstate__:notify-on-restore", mod.loc(c),
+                       f"__setstate__(state) restores the values with "
+                       f"trait_change_notify={norm(v)}: the assignments are "
+                       f"silent, so observers / property dependencies that "
+                       f"reach through a restored value (`child.value`, "
+                       f"`items`) are never hooked on the unpickled object")
     # copy_traits assigns with setattr(self, name, value)
     from ..pyfacts import inline_helpers
     fn = inline_helpers(mod, repo.cls(HT, "HasTraits"),
